@@ -2,6 +2,7 @@
 
 from pathlib import Path
 import re
+import zlib
 
 import aiu_trace_analyzer.logger as aiulog
 
@@ -159,7 +160,7 @@ class GlobalIngestData(object):
 
     @classmethod
     def add_job_info(cls, source_uri: str, data_dialect: InputDialect = None) -> int:
-        jobhash = hash(source_uri) % 10000
+        jobhash = zlib.crc32(str(source_uri).encode()) % 10000
         if jobhash not in cls._jobmap:
             cls._jobmap[jobhash] = (Path(source_uri).name, data_dialect)
         return jobhash
